@@ -345,6 +345,9 @@ func c05Eval(c *c05Case) (req, impl, verdict string) {
 		if inClosed {
 			if d := c05AllDangling(run.out, 1); len(d) > 0 {
 				verdict = fmt.Sprintf("FAIL chain lang=%s %s %s", c.lang, c05BrokenBy(c05Chain(c.lang), c.ss), c05DanglingText(d[0]))
+				if k := d[0].use.kind; k == "ref" && strings.Contains(verdict, "target-dropped=true") {
+					verdict += fmt.Sprintf(" nested-in-inlined=%v", c05LastNested)
+				}
 				if k := d[0].use.kind; k == "mapping" || k == "gmapping" {
 					// a bare name that exists in another package: the type was moved across packages
 					for _, s := range c.ss {
@@ -397,6 +400,56 @@ func c05Eval(c *c05Case) (req, impl, verdict string) {
 	return "-", "unknown-verb", "FAIL unknown verb"
 }
 
+// c05LastNested: set by c05BrokenBy — is the dangling target named (at a position the Visitor
+// walks) inside the RESOLVED, non-reference type of an object that the breaking pass dropped?
+// (the shape of the known PHP finding "reference inside an inlined copy")
+var c05LastNested bool
+
+func c05NestedInDropped(before, after ast.Schemas, target c05Addr) bool {
+	var names func(t ast.Type) bool
+	names = func(t ast.Type) bool {
+		switch {
+		case t.Kind == ast.KindRef && t.Ref != nil:
+			return t.Ref.ReferredPkg == target.pkg && t.Ref.ReferredType == target.name
+		case t.Kind == ast.KindArray && t.Array != nil:
+			return names(t.Array.ValueType)
+		case t.Kind == ast.KindMap && t.Map != nil:
+			return names(t.Map.ValueType)
+		case t.Kind == ast.KindStruct && t.Struct != nil:
+			for _, f := range t.Struct.Fields {
+				if names(f.Type) {
+					return true
+				}
+			}
+		case t.Kind == ast.KindDisjunction && t.Disjunction != nil:
+			for _, b := range t.Disjunction.Branches {
+				if names(b) {
+					return true
+				}
+			}
+		case t.Kind == ast.KindIntersection && t.Intersection != nil:
+			for _, b := range t.Intersection.Branches {
+				if names(b) {
+					return true
+				}
+			}
+		}
+		return false
+	}
+	for _, s := range before {
+		for _, k := range c05Keys(s) {
+			if c05Has(after, s.Package, k) {
+				continue
+			}
+			rt := before.ResolveToType(s.Objects.Get(k).Type) // `before` is alias-acyclic (guarded)
+			if rt.Kind != ast.KindRef && names(rt) {
+				return true
+			}
+		}
+	}
+	return false
+}
+
 // c05BrokenBy runs the chain pass by pass and names the first pass after which the schemas are no
 // longer Closed, and whether the object named by the dangling use existed before that pass
 func c05BrokenBy(passes compiler.Passes, in ast.Schemas) string {
@@ -415,6 +468,7 @@ func c05BrokenBy(passes compiler.Passes, in ast.Schemas) string {
 				t = t.Elem()
 			}
 			existed := d[0].self == "" && c05Has(cur, d[0].use.pkg, d[0].use.name)
+			c05LastNested = d[0].self == "" && c05NestedInDropped(cur, step.out, c05Addr{d[0].use.pkg, d[0].use.name})
 			return fmt.Sprintf("broken-by=%s target-dropped=%v", t.Name(), existed)
 		}
 		cur = step.out
@@ -504,6 +558,9 @@ func c05Class(verdict string) string {
 	}
 	if strings.Contains(verdict, "from-exact=") && !strings.Contains(verdict, "case-variants=0") {
 		m += " case-variants"
+	}
+	if strings.Contains(verdict, "nested-in-inlined=false") {
+		m += " not-nested"
 	}
 	if strings.Contains(verdict, "cross-package=true") {
 		m += " cross-package"
